@@ -54,9 +54,11 @@ class Gen:
         specs = {}
         for _ in range(nfn):
             name = self.fresh(pfx + "f")
-            shape = rng.choice([None, None, None, ["tuple", rng.randint(1, 3)], ["list", 2], ["dict"], ["tdict"]])
+            shape = rng.choice([None, None, None, ["tuple", rng.randint(1, 3)], ["list", 2], ["dict"], ["tdict"], ["lazy", 2]])
             if self.touchy and rng.random() < 0.35:
                 shape = ["touchy"]
+            elif rng.random() < self.f.get("lazy_rate", 0.0):
+                shape = ["lazy", rng.randint(2, 4)]  # (workloads about flags: many flags that are short-lived temporaries)
             unpack = shape[1] if shape and shape[0] in ("tuple", "list") and rng.random() < 0.6 else None
             specs[name] = dict(
                 shape=shape, unpack_to=unpack, priority=rng.choice([0, 0, 1, 5, -1, 3]),
@@ -118,7 +120,7 @@ class Gen:
                     # so the DAG call must raise too (the consumer is never handed a made-up value)
                     if sh[0] == "dict":
                         return '%s["missing"]' % v
-                    if sh[0] in ("tuple", "list"):
+                    if sh[0] in ("tuple", "list", "lazy"):
                         return "%s[%d]" % (v, sh[1] + 3)
                     if sh[0] == "tdict":
                         return '%s["r"]["nope"]' % v
@@ -127,7 +129,7 @@ class Gen:
                 if sh and sh[0] == "tdict" and rng.random() < 0.8:
                     # a table keyed by TUPLES: v["r", "c"] is one key, v["r"]["c"] is another entry
                     return rng.choice(['%s["r", "c"]' % v, '%s["r"]["c"]' % v, '%s[("r", "c")]' % v, '%s[1, 0]' % v, '%s[1][0]' % v])
-                if sh and sh[0] in ("tuple", "list") and rng.random() < 0.7:
+                if sh and sh[0] in ("tuple", "list", "lazy") and rng.random() < (0.9 if sh[0] == "lazy" else 0.7):
                     return "%s[%d]" % (v, rng.randrange(sh[1]))
                 if sh is None and info["plain"] and not info.get("elem") and rng.random() < f.get("index_plain", 0.12):
                     # indexing an opaque result: symbolic terms support it and half of them are falsy
@@ -272,7 +274,7 @@ class Gen:
                 v = rng.choice(rvars)
                 info = vars_[v]
                 sh = info["shape"]
-                if not info["maybe_none"] and sh and sh[0] in ("tuple", "list") and rng.random() < 0.5:
+                if not info["maybe_none"] and sh and sh[0] in ("tuple", "list", "lazy") and rng.random() < 0.5:
                     return "%s[%d]" % (v, rng.randrange(sh[1]))
                 return v
             return repr(rng.choice(CONSTS))
